@@ -148,6 +148,8 @@ UNITS = {
             I(RAW, r'^impl < T > RawIterRange < T >$', 'next_impl', impl='RawIterRange<T>', key='RawIterRange::next_impl'),
             I(RAW, r'^impl < T > RawIterRange < T >$', 'fold_impl', impl='RawIterRange<T>', key='RawIterRange::fold_impl'),
             I(RAW, r'^impl < T > Iterator for RawIter < T >$', 'next', impl='RawIter<T>', key='RawIter::next'),
+            I(RAW, r'^impl < T > RawIter < T >$', 'drop_elements', impl='RawIter<T>', key='RawIter::drop_elements'),
+            I(RAW, r'^impl RawTableInner$', 'drop_elements', impl='RawTableInner', key='RawTableInner::drop_elements'),
             I(RAW, r'^impl FullBucketsIndices$', 'next_impl', impl='FullBucketsIndices', key='FullBucketsIndices::next_impl'),
             I(RAW, r'^impl Iterator for FullBucketsIndices$', 'next', impl='FullBucketsIndices', key='FullBucketsIndices::next'),
         ],
@@ -328,7 +330,7 @@ def ctrl_rules(toks, i, out, hit):
         out.extend(pat)
         out.extend([T(')', ''), T('='), T('>', ''), T('{')])
         out.extend(body)
-        out.extend([T('}', '\n'), T('None'), T('='), T('>', ''), T('break'), T(',', ''), T('}', '\n'), T('}', '\n')])
+        out.extend([T('}', '\n'), T('None'), T('='), T('>', ''), T('{'), T('break'), T(';', ''), T('}'), T('}', '\n'), T('}', '\n')])
         hit('R7_for_loop_desugared')
         return close + 1
     # R8: `&mut dyn FnMut(usize) -> bool` -> opaque `&mut EqDyn`; call `eq(E)` -> `eq.call(E)`
@@ -567,6 +569,39 @@ def iter_rules(toks, i, out, hit):
     if t.text == '.' and i + 3 < n and [x.text for x in toks[i + 1:i + 4]] == ['cast', '(', ')']:
         hit('R15c_pointer_cast_dropped')
         return i + 4
+    # R7d: `for X in self {` (the receiver is itself the iterator) -> `loop { match self.next() { Some(X) => {..} None => break, } }`
+    if t.kind == 'id' and t.text == 'for' and out and out[-1].text in (';', '{', '}') and i + 4 < n and toks[i + 1].kind == 'id' \
+            and toks[i + 2].text == 'in' and toks[i + 3].text == 'self' and toks[i + 4].text == '{':
+        close = extract._find_close(toks, i + 4)
+        body = extract.rewrite(toks[i + 5:close], set(), _HITS, iter_rules)
+        T = extract.T
+        out.extend([T('loop', t.gap), T('{'), T('match'), T('self'), T('.', ''), T('next', ''), T('(', ''), T(')', ''), T('{'),
+                    T('Some'), T('(', ''), T(toks[i + 1].text, ''), T(')', ''), T('='), T('>', ''), T('{')])
+        out.extend(body)
+        out.extend([T('}', '\n'), T('None'), T('='), T('>', ''), T('{'), T('break'), T(';', ''), T('}'), T('}', '\n'), T('}', '\n')])
+        hit('R7d_for_over_receiver_to_loop')
+        return close + 1
+    # R7 (generic): `for X in EXPR {` -> `let mut it_ = EXPR.into_iter(); loop { match it_.next() { Some(X) => {..} None => break, } }`
+    if t.kind == 'id' and t.text == 'for' and out and out[-1].text in (';', '{', '}'):
+        _FLAGS['top_rules'] = iter_rules
+        try:
+            r = ctrl_rules(toks, i, out, hit)
+        finally:
+            _FLAGS['top_rules'] = None
+        if r is not None:
+            return r
+    # R21: `T::NEEDS_DROP` -> `needs_drop::<T>()` (an opaque bool per element type); `item.drop()` (Bucket::drop) ->
+    #      `self.drop_bucket(&item)`: the drop of the element in a bucket is recorded by the object driving the iteration
+    if t.text == 'T' and i + 3 < n and [x.text for x in toks[i + 1:i + 4]] == [':', ':', 'NEEDS_DROP']:
+        T = extract.T
+        out.extend([T('needs_drop', t.gap), T(':', ''), T(':', ''), T('<', ''), T('T', ''), T('>', ''), T('(', ''), T(')', '')])
+        hit('R21_NEEDS_DROP_to_opaque_fn')
+        return i + 4
+    if t.kind == 'id' and t.text == 'item' and i + 4 < n and [x.text for x in toks[i + 1:i + 5]] == ['.', 'drop', '(', ')']:
+        T = extract.T
+        out.extend([T('self', t.gap), T('.', ''), T('drop_bucket', ''), T('(', ''), T('&', ''), T('item', ''), T(')', '')])
+        hit('R21_bucket_drop_recorded')
+        return i + 5
     # R15d: NonNull<u8> is the same index: `.as_ptr()` dropped, `NonNull::new_unchecked(E)` -> `(E)`, type `NonNull<u8>` -> `usize`
     if t.text == '.' and i + 3 < n and [x.text for x in toks[i + 1:i + 4]] == ['as_ptr', '(', ')']:
         hit('R15d_nonnull_as_ptr_dropped')
